@@ -79,6 +79,7 @@ int main(int argc,char**argv){
   if(argc<2){ fprintf(stderr,"usage: vh <driver> [--out dir] [--seed n] [--tier quick|thorough] ...\ndrivers:"); for(auto&d:drivers()) fprintf(stderr," %s",d.name); fprintf(stderr,"\n"); return 2; }
   const char*seed=arg_value(argc,argv,"--seed",getenv("VERIF_SEED")?getenv("VERIF_SEED"):"1"); g.seed=strtoull(seed,nullptr,10);
   g.thorough=!strcmp(arg_value(argc,argv,"--tier","quick"),"thorough");
+  g.pair=atoi(arg_value(argc,argv,"--pair","0"))!=0;
   install_fault_handlers();
   for(auto&d:drivers()) if(!strcmp(d.name,argv[1])){
     const char*out=arg_value(argc,argv,"--out",nullptr); if(out) g.open(out,arg_value(argc,argv,"--stream",argv[1]),atoi(arg_value(argc,argv,"--shards","16")));
